@@ -43,6 +43,7 @@ type NetflowV5 struct {
 	stop    bool
 	stats   NetflowV5Stats
 	pool    chan chan struct{}
+	done    chan struct{} // closed when the receive loop has ended
 }
 
 // NetflowV5UDPMsg represents netflow v5 UDP data
@@ -79,6 +80,7 @@ func NewNetflowV5() *NetflowV5 {
 		port:    opts.NetflowV5Port,
 		addr:    opts.NetflowV5Addr,
 		workers: opts.NetflowV5Workers,
+		done:    make(chan struct{}),
 	}
 }
 
@@ -147,6 +149,7 @@ func (i *NetflowV5) run() {
 		netflowV5UDPCh <- NetflowV5UDPMsg{raddr, b[:n]}
 	}
 
+	close(i.done)
 }
 
 func (i *NetflowV5) shutdown() {
@@ -158,7 +161,9 @@ func (i *NetflowV5) shutdown() {
 	// stop reading from UDP listener
 	i.stop = true
 	logger.Println("stopping netflow v5 service gracefully ...")
-	time.Sleep(1 * time.Second)
+	// the receive loop sees the flag within its one second read deadline, but it may
+	// also be waiting for room in a full queue: the queue is closed only after it has ended
+	<-i.done
 
 	// logging and close UDP channel
 	logger.Println("netflow v5 has been shutdown")
